@@ -37,6 +37,7 @@ package rtp
 //@ spec func validPacket(p *Packet) bool = p != nil && len(p.Data) <= 65535 && ((p.Channel == ChannelVideo || p.Channel == ChannelAudio) ==> 0 <= p.PayloadOffset && p.PayloadOffset <= len(p.Data))
 
 //@ func (p *Packet) Write(w io.Writer, channelConfig []int) (err error)
+//@   inline
 //@   requires validPacket(p) && w != nil && len(channelConfig) >= ChannelCount
 //@   modifies out(w)
 //@   ensures (p.Channel >= ChannelCount || channelConfig[p.Channel] < 0 || channelConfig[p.Channel] > 255) ==> len(out(w)) == old(len(out(w)))
